@@ -26,14 +26,42 @@ def grow (step n avail : Nat) : Nat → Nat → Nat × Bool
       if len + k ≤ avail then grow step n avail fuel (len + k) else (len + k, false)
     else (len, true)
 
-/-- `ReadBytes(n)` on a source that holds `avail` more bytes: length of the
-    buffer returned (= bytes requested from the allocator), and success -/
+/-- `ReadBytes(n)` on a source that holds `avail` more bytes: LENGTH of the
+    buffer returned, and success. (What is requested of the allocator — the initial
+    capacity, the temporary chunks, the re-allocations of `append` — is `readBytesMaxReq`.) -/
 def readBytes (step n avail : Nat) : Nat × Bool :=
   if n ≤ step then (n, decide (n ≤ avail)) else grow step n avail (n + 1) 0
 
-/-- `lzfDecompress`: `some outlen` bytes are allocated, `none`: refused before allocating -/
+/-- Go's `growslice`, as far as it is relied on: the new capacity holds what is
+    needed and is at most twice the larger of the old capacity and the need
+    (1.25× + 192 plus size-class rounding for large slices, 2× for small ones) -/
+structure GrowOK (g : Nat → Nat → Nat) : Prop where
+  ge : ∀ c m, m ≤ g c m
+  le : ∀ c m, g c m ≤ 2 * max c m
+
+/-- the loop of `ReadBytes` with the capacity of `p`; result: the LARGEST single
+    request made of the allocator (`make([]byte, k)`, a re-allocation by `append`) -/
+def growC (g : Nat → Nat → Nat) (step n avail : Nat) : Nat → Nat → Nat → Nat → Nat
+  | 0, _, _, mx => mx
+  | fuel+1, len, cap, mx =>
+    if len < n then
+      let k := min (n - len) step
+      let cap' := if len + k ≤ cap then cap else g cap (len + k)
+      let mx' := max (max mx k) (if len + k ≤ cap then 0 else g cap (len + k))
+      if len + k ≤ avail then growC g step n avail fuel (len + k) cap' mx' else mx'
+    else mx
+
+/-- the largest single allocation request of `ReadBytes(n)`: `make([]byte, n)` for `n ≤ step`,
+    else `make([]byte, 0, step)` and the loop -/
+def readBytesMaxReq (g : Nat → Nat → Nat) (step n avail : Nat) : Nat :=
+  if n ≤ step then n else growC g step n avail (n + 1) 0 step step
+
+/-- `lzfDecompress`: the guard on the DECLARED length — `some outlen`: admitted, `none`: refused before allocating. (Since D33 the buffer itself follows the bytes really produced, one step ahead; that loop is not modelled here.) -/
 def lzfAlloc (outlen : Int) (inBytes : Nat) : Option Nat :=
   if outlen < 0 ∨ outlen > Int.ofNat (inBytes * 264) then none else some outlen.toNat
+
+/-- the declared lengths reach `lzfDecompress` through `ReadLength` (uint32) -/
+def lzfAlloc32 (outlen inBytes : Nat) : Option Nat := lzfAlloc (Int.ofNat (outlen % 4294967296)) inBytes
 
 /-- stream master entry: `some numFields` slots are allocated, `none`: refused before allocating -/
 def fieldsAlloc (numFields : Int) (listpackBytes : Nat) : Option Nat :=
